@@ -464,7 +464,7 @@ func c23Diff(exp, got frame.Frame) string {
 		name := t.Field(i).Name
 		ef, gf := ev.Field(i), gv.Field(i)
 		if name == "Framer" {
-			e, g := ef.Interface().(frame.Framer), gf.Interface().(frame.Framer)
+			e, g := c23FramerOf(exp), c23FramerOf(got)
 			if e.FrameType != g.FrameType {
 				return "Framer.FrameType"
 			}
